@@ -1,5 +1,6 @@
 import Csverif.Proofs.Engine
 import Csverif.Proofs.EngineXfer
+import Csverif.Proofs.EngineMore
 /-
 ENG — theorems about the decision tables of the sync engine (Model/Engine.lean; the model is tied to the real methods of
 cloudsync/sync/manager.py by harness/eng_decide.py, driver layer `engine`).
@@ -25,6 +26,10 @@ structure of the model (no enumeration needed: `Entry × Oracle` is finite up to
     `uploaded_bytes_have_current_hash`, `temp_reuse_only_same_hash`, `recorded_sync_hash_matches_uploaded_bytes`,
     `recorded_sync_hash_after_create`, `failed_upload_keeps_entry_pending`, `failed_transfer_keeps_flag`,
     `retry_after_reedit_uploads_new_bytes`, `finished_cleans_temps`, `make_temp_file_stable`
+14. part 3 (Model/EngineConflict.lean, Model/EngineMore.lean): `conflict_never_loses_a_side`, `conflict_restores_on_cloud_exception`,
+    `same_hash_conflict_merges_without_resolver`, `hash_conflict_sync_total`; `conflict_name_fresh`, `conflict_rename_total`;
+    `fnf_gives_up_after_bounded_punts`, `fnf_out`, `fnf_parent_becomes_creation`; `disjoint_create_never_overwrites`;
+    `folder_file_conflict_is_live_file`, `mkdir_head_law`
 -/
 namespace CS.Engine
 open CS.Hints (Ex OT Ign)
@@ -1212,3 +1217,389 @@ example : (⟨true, true, [⟨⟨.cur, .keyed 1 1⟩, false, 1⟩], 0⟩ : FS).w
 
 end Xfer
 end CS.Engine
+
+/-! ## 14. part 3: the conflict path, conflict names, the file-not-found handler, disjoint creates, folder/file conflicts -/
+
+namespace CS.Engine.More
+open CS.Hints (Ex OT Ign)
+open CS.Engine
+open CS.Path (Str Cfg)
+
+/-- CONFLICT NAME FRESH, and the loop of `conflict_rename` (manager.py 1403-1413) TERMINATES: against any finite set of taken
+    names, one of the first `taken.length + 1` candidates `stem.conflicted[N]ext` is free; the name produced is not taken, starts
+    with the stem, contains ".conflicted", keeps the extension (everything from the FIRST dot of the base name), and every
+    candidate tried before it was taken. -/
+theorem conflict_name_fresh (stem ext : Str) (taken : List Str) :
+    ∃ n k, conflictName stem ext taken = some (n, k) ∧ n ∉ taken ∧ 1 ≤ k ∧ k ≤ taken.length + 1 ∧
+      n = conflictBase stem ext k ∧ stem <+: n ∧ conflictedTag <:+: n ∧ ext <:+ n ∧
+      ∀ j, 1 ≤ j → j < k → conflictBase stem ext j ∈ taken := by
+  -- pigeonhole: not all candidates can be taken
+  have hex : ∃ k ∈ List.range (taken.length + 1), (!taken.contains (conflictBase stem ext (k + 1))) = true := by
+    apply Classical.byContradiction
+    intro hno
+    have hsub : candidates stem ext (taken.length + 1) ⊆ taken := by
+      intro x hx
+      simp only [candidates, List.mem_map] at hx
+      obtain ⟨k, hk, rfl⟩ := hx
+      apply Classical.byContradiction
+      intro hnot
+      exact hno ⟨k, hk, by simpa using hnot⟩
+    have := (candidates_nodup stem ext (taken.length + 1)).length_le_of_subset hsub
+    simp [candidates] at this
+    omega
+  cases hf : (List.range (taken.length + 1)).find? (fun k => !taken.contains (conflictBase stem ext (k + 1))) with
+  | none =>
+    rw [List.find?_eq_none] at hf
+    obtain ⟨k, hk, hp⟩ := hex
+    exact absurd hp (hf k hk)
+  | some k =>
+    obtain ⟨hp, hm, hbefore⟩ := List.find?_range_eq_some.mp hf
+    have hname : conflictName stem ext taken = some (conflictBase stem ext (k + 1), k + 1) := by
+      unfold conflictName; rw [hf]; rfl
+    have hnot : conflictBase stem ext (k + 1) ∉ taken := by simpa using hp
+    have hle : k + 1 ≤ taken.length + 1 := by have := List.mem_range.mp hm; omega
+    refine ⟨conflictBase stem ext (k + 1), k + 1, hname, hnot, by omega, hle, rfl, ?_, ?_, ?_, ?_⟩
+    · exact ⟨conflictedTag ++ (if k + 1 ≤ 1 then [] else numStr (k + 1)) ++ ext, by simp [conflictBase]⟩
+    · exact ⟨stem, (if k + 1 ≤ 1 then [] else numStr (k + 1)) ++ ext, by simp [conflictBase]⟩
+    · exact ⟨stem ++ conflictedTag ++ (if k + 1 ≤ 1 then [] else numStr (k + 1)), by simp [conflictBase]⟩
+    · intro j hj1 hjk
+      have := hbefore (j - 1) (by omega)
+      have hj : j - 1 + 1 = j := by omega
+      rw [hj] at this
+      simpa using this
+
+/-- `conflict_rename` never gets stuck: a path with a base name whose object exists is renamed, to a path whose name is fresh -/
+theorem conflict_rename_total (c : Cfg) (path : Str) (present : Bool) (taken : List Str) :
+    conflictRename c path present taken ≠ .stuck := by
+  unfold conflictRename
+  simp only
+  split_ifs
+  · simp
+  · simp
+  · obtain ⟨n, k, h, _⟩ := conflict_name_fresh (splitExt (CS.Path.split c path).2).1 (splitExt (CS.Path.split c path).2).2 taken
+    simp [h]
+
+end CS.Engine.More
+
+namespace CS.Engine.More
+open CS.Hints (Ex OT Ign)
+open CS.Engine
+open CS.Path (Str Cfg)
+
+/-- `handle_cloud_file_not_found_error` only ever punts, or gives up (priority > 5), or trips its own assertion -/
+theorem fnf_out (e : Entry) (c : Sd) (parent : Option Entry) (pt ps : Bool) :
+    (fnfHandler e c parent pt ps).out = .ret .punt ∨ (fnfHandler e c parent pt ps).out = .raised .tooMany ∨
+    (fnfHandler e c parent pt ps).out = .raised .assertion := by
+  unfold fnfHandler
+  simp only
+  repeat' split
+  all_goals simp
+
+/-- FNF GIVES UP AFTER BOUNDED PUNTS (manager.py 785-786, 447-455).  (1) once the priority exceeds 5 the handler raises
+    CloudTooManyRetriesError whatever the parent looks like; (2) six punts take any non-negative priority above 5; (3) `sync`
+    turns that exception into FINISHED: the side is finished and progress is reported. -/
+theorem fnf_gives_up_after_bounded_punts :
+    (∀ (e : Entry) (c : Sd) (parent : Option Entry) (pt ps : Bool), e.prio > 50 →
+        (fnfHandler e c parent pt ps).out = .raised .tooMany ∧ (fnfHandler e c parent pt ps).parent = parent) ∧
+    (∀ e : Entry, 0 ≤ e.prio → e.punt.punt.punt.punt.punt.punt.prio > 50) ∧
+    (∀ (o : Oracle) (e : Entry) (side : Sd) (fx : List Eff), (e.get side).corruptGone = false →
+        (embrace o e side).out = .raised .tooMany →
+        dispatch o e side fx = .brk true (finished (embrace o e side).ent side) (fx ++ (embrace o e side).effs ++ [.fin side])) := by
+  refine ⟨?_, ?_, ?_⟩
+  · intro e c parent pt ps h
+    simp [fnfHandler, h]
+  · intro e h
+    simp only [punt_prio]
+    omega
+  · intro o e side fx hcg hout
+    simp [dispatch, hcg, hout]
+
+/-- when the handler re-flags the parent ("updated entry as missing", 825-830) and returns, the parent IS a pending creation that
+    needs sync, its peer is MISSING (or CORRUPT), and its own sync_path is cleared -/
+theorem fnf_parent_becomes_creation (e : Entry) (c : Sd) (pe pe' : Entry) (pt : Bool)
+    (hch : ((pe.get c).changed && isCreation pe c) = false) (hp : 20 < e.prio) (hp5 : e.prio ≤ 50)
+    (hex : (pe.get c).ex = .present) (hr : fnfHandler e c (some pe) pt false = ⟨.ret .punt, [.infoParentOid], some pe'⟩) :
+    isCreation pe' c = true ∧ (pe'.get c).needsSync = true ∧ (pe'.get c).p.sync = false := by
+  unfold fnfHandler at hr
+  have h1 : ¬ e.prio > 50 := by omega
+  have h2 : ¬ e.prio ≤ 20 := by omega
+  have hch' : (!(pe.get c).changed || !isCreation pe c) = true := by
+    cases h3 : (pe.get c).changed <;> cases h4 : isCreation pe c <;> simp_all
+  simp only [h1, h2, hch', hex, if_false, if_true, beq_self_eq_true, Bool.false_eq_true] at hr
+  split_ifs at hr with ha
+  · simp at hr
+  · injection hr with _ _ hpar
+    injection hpar with hpar
+    subst hpar
+    simp only [Bool.or_eq_true, Bool.not_eq_true', not_or, Bool.not_eq_false] at ha
+    refine ⟨ha.1, ha.2, ?_⟩
+    simp [setChanged_get_self]
+
+/-- DISJOINT CREATE NEVER OVERWRITES (manager.py 1140-1180 with 1226-1231).
+    (1) `check_disjoint_create` answers False — "go on and create" — only when no other entry at the translated path exists on the
+        synced side (or the changed side is not a file), or the provider has nothing at that path; whenever a live peer entry and an
+        object at the path exist it answers True and `handle_path_change_or_creation` punts without any provider write (3).
+    (2) the synced side of another entry is adopted (`sync[synced] = e[synced]`) only if that entry exists, holds exactly the object at
+        the path, its hash is synced and it has no pending change: an unsynced peer object is never taken over (and so never uploaded
+        over) — it goes to the conflict resolution instead, or is "not understood" (True, punt). -/
+theorem disjoint_create_never_overwrites (cO sO : OT) (peers : List Peer) (info : Bool) :
+    ((checkDisjoint cO sO peers info).1 = false →
+        info = false ∨ cO ≠ .file ∨ ∀ p ∈ peers, p.ex ≠ .present) ∧
+    (∀ i, DjEff.merge i ∈ (checkDisjoint cO sO peers info).2 →
+        ∃ p, peers[i]? = some p ∧ p.ex = .present ∧ p.oidMatch = true ∧ p.hashSynced = true ∧ p.changed = false) ∧
+    (∀ (o : Oracle) (e : Entry) (c : Sd), isCreation e c = true →
+        (hpccRest { o with disjoint := true } e c).out = .ret .punt ∧
+        (hpccRest { o with disjoint := true } e c).effs.all (fun f => !f.isWrite) = true) := by
+  refine ⟨?_, ?_, ?_⟩
+  · intro h
+    rcases untrashed_cases cO peers with ⟨_, hwhy, _⟩ | ⟨live, hu, hne, _⟩
+    · rcases hwhy with hwhy | hwhy
+      · exact Or.inr (Or.inl hwhy)
+      · exact Or.inr (Or.inr hwhy)
+    · unfold checkDisjoint at h
+      rw [hu] at h
+      have hemp : live.isEmpty = false := by cases live <;> simp_all
+      simp only [hemp, Bool.false_eq_true, if_false] at h
+      by_cases hi : info = true
+      · exfalso
+        simp only [hi, Bool.not_true, Bool.false_eq_true, if_false] at h
+        generalize djLoop _ _ _ _ = r at h
+        obtain ⟨f, st, fx⟩ := r
+        cases f with
+        | none => simp at h
+        | some g => cases g <;> simp at h
+      · left; simpa using hi
+  · intro i hm
+    rcases untrashed_cases cO peers with ⟨hnone, _, hnm⟩ | ⟨live, hu, hne, hlive⟩
+    · exfalso
+      unfold checkDisjoint at hm
+      rcases hu : untrashedPeers cO peers with ⟨lv, fx⟩
+      rw [hu] at hnone hnm hm
+      simp only at hnone
+      subst hnone
+      exact hnm i hm
+    · unfold checkDisjoint at hm
+      rw [hu] at hm
+      have hemp : live.isEmpty = false := by cases live <;> simp_all
+      simp only [hemp, Bool.false_eq_true, if_false] at hm
+      by_cases hi : info = true
+      · simp only [hi, Bool.not_true, Bool.false_eq_true, if_false] at hm
+        have key : DjEff.merge i ∈ (djLoop live none sO ([] ++ [.infoPath])).2.2 := by
+          generalize hr : djLoop live none sO ([] ++ [DjEff.infoPath]) = r at hm
+          obtain ⟨f, st, fx2⟩ := r
+          cases f with
+          | none => simpa using hm
+          | some g =>
+            cases g with
+            | none => simpa using hm
+            | some j =>
+              simp only [List.mem_append, List.mem_singleton] at hm
+              rcases hm with hm | hm
+              · exact hm
+              · cases hm
+        rcases djLoop_merge live none sO _ i key with h' | ⟨p, hp, h1, h2, h3⟩
+        · simp at h'
+        · obtain ⟨hen, hex⟩ := hlive (i, p) hp
+          exact ⟨p, mem_enum peers i p hen, hex, h1, h2, h3⟩
+      · have : (!info) = true := by simpa using hi
+        simp [this] at hm
+  · intro o e c hcr
+    unfold hpccRest
+    simp only [hcr, Bool.true_and]
+    split_ifs <;> simp [Eff.isWrite]
+
+end CS.Engine.More
+
+namespace CS.Engine.More
+open CS.Hints (Ex OT Ign)
+open CS.Engine
+
+/-- `get_folder_file_conflict` returns only a LIVE NON-FOLDER the provider still knows, and marks MISSING only entries whose object
+    the provider no longer knows -/
+theorem folder_file_conflict_is_live_file (peers : List FfPeer) :
+    (∀ i, (folderFileConflict peers).1 = some i →
+        ∃ p, peers[i]? = some p ∧ p.ex = .present ∧ p.otype ≠ .dir ∧ p.infoThere = true) ∧
+    (∀ i ∈ (folderFileConflict peers).2, ∃ p, peers[i]? = some p ∧ p.ex = .present ∧ p.otype ≠ .dir ∧ p.infoThere = false) := by
+  unfold folderFileConflict
+  simp only
+  constructor
+  · intro i h
+    rw [Option.map_eq_some_iff] at h
+    obtain ⟨ip, hip, rfl⟩ := h
+    have hm := List.mem_of_mem_head? hip
+    obtain ⟨h1, h2⟩ := List.mem_filter.mp hm
+    obtain ⟨h3, h4⟩ := List.mem_filter.mp h1
+    refine ⟨ip.2, mem_enum peers ip.1 ip.2 h3, ?_, ?_, h2⟩
+    · simp only [Bool.and_eq_true, beq_iff_eq] at h4; exact h4.1
+    · simp only [Bool.and_eq_true, bne_iff_ne] at h4; exact h4.2
+  · intro i h
+    rw [List.mem_map] at h
+    obtain ⟨ip, hip, rfl⟩ := h
+    obtain ⟨h1, h2⟩ := List.mem_filter.mp hip
+    obtain ⟨h3, h4⟩ := List.mem_filter.mp h1
+    refine ⟨ip.2, mem_enum peers ip.1 ip.2 h3, ?_, ?_, by simpa using h2⟩
+    · simp only [Bool.and_eq_true, beq_iff_eq] at h4; exact h4.1
+    · simp only [Bool.and_eq_true, bne_iff_ne] at h4; exact h4.2
+
+/-- `mkdir_synced` punts exactly when a live other entry sits at the path and the entry was not punted before (priority ≤ 0);
+    it discards only entries whose side is a FOLDER, and no entry twice -/
+theorem mkdir_head_law (others : List MkOther) (prio : Int) :
+    ((mkdirHead others prio).2.1 = .punt ↔
+      (others.any (fun o => !(o.cEx == .trashed || o.cEx == .missing) && !(o.sEx == .trashed || o.sEx == .missing)) = true ∧ prio ≤ 0)) ∧
+    (∀ i ∈ (mkdirHead others prio).1, ∃ o, others[i]? = some o ∧ o.cOtype = .dir) ∧
+    (∀ i ∈ (mkdirHead others prio).2.2, i ∉ (mkdirHead others prio).1 ∧ ∃ o, others[i]? = some o ∧ o.sOtype = .dir) := by
+  unfold mkdirHead
+  simp only
+  have hd1 : ∀ i ∈ ((enum others).filter (fun io => io.2.cOtype == .dir)).map (·.1), ∃ o, others[i]? = some o ∧ o.cOtype = .dir := by
+    intro i h
+    rw [List.mem_map] at h
+    obtain ⟨io, hio, rfl⟩ := h
+    obtain ⟨h1, h2⟩ := List.mem_filter.mp hio
+    exact ⟨io.2, mem_enum others io.1 io.2 h1, by simpa using h2⟩
+  split_ifs with h
+  · refine ⟨⟨fun _ => ?_, fun _ => rfl⟩, hd1, by simp⟩
+    simpa using h
+  · refine ⟨⟨fun hh => (by cases hh), fun hh => absurd (by simpa using hh) h⟩, hd1, ?_⟩
+    intro i hi
+    rw [List.mem_map] at hi
+    obtain ⟨io, hio, rfl⟩ := hi
+    obtain ⟨h1, h2⟩ := List.mem_filter.mp hio
+    simp only [Bool.and_eq_true, beq_iff_eq, bne_iff_ne] at h2
+    refine ⟨?_, io.2, mem_enum others io.1 io.2 h1, h2.1⟩
+    intro hmem
+    obtain ⟨o, ho, hod⟩ := hd1 _ hmem
+    have := mem_enum others io.1 io.2 h1
+    rw [this] at ho
+    injection ho with ho
+    subst ho
+    exact h2.2 hod
+
+end CS.Engine.More
+
+namespace CS.Engine.Conflict
+open CS.Hints (Ex OT Ign)
+open CS.Engine
+
+/-- CONFLICT RESTORES ON A CLOUD EXCEPTION (manager.py 1626-1632).  When a CloudException (temporary or not) escapes from the
+    conflict handling of a hash-conflict entry whose REMOTE side has an id, the deferring entry gets its six saved fields back on
+    both sides — id, path, sync_path, hash, sync_hash (as relations) and exists — and the replacement entry created by `split` is
+    DISCARDED and no longer holds the LOCAL id.  (The change flag of LOCAL is NOT restored; REMOTE stays flagged, so the entry
+    remains in the change set and the conflict is offered again.) -/
+theorem conflict_restores_on_cloud_exception (o : COracle) (e : Entry) (x : Exc) (hc : hashConflict e = true)
+    (hro : e.r.oid = true) (hout : (hashConflictHandler o e).out = .raised x) (hx : x ≠ .assertion) :
+    (hashConflictHandler o e).ents.defer.l.oid = e.l.oid ∧ (hashConflictHandler o e).ents.defer.l.p = e.l.p ∧
+    (hashConflictHandler o e).ents.defer.l.h = e.l.h ∧ (hashConflictHandler o e).ents.defer.l.ex = e.l.ex ∧
+    (hashConflictHandler o e).ents.defer.r.oid = e.r.oid ∧ (hashConflictHandler o e).ents.defer.r.p = e.r.p ∧
+    (hashConflictHandler o e).ents.defer.r.h = e.r.h ∧ (hashConflictHandler o e).ents.defer.r.ex = e.r.ex ∧
+    (hashConflictHandler o e).ents.replace.ign = .discarded ∧ (hashConflictHandler o e).ents.replace.l.oid = false ∧
+    (hashConflictHandler o e).ents.defer.r.changed = true := by
+  have hlh : e.l.h.cur = true := by
+    unfold hashConflict at hc; split_ifs at hc with h1; simp only [Bool.and_eq_true] at h1; exact h1.1.1.1
+  unfold hashConflictHandler splitFull at hout ⊢
+  cases hs : splitEntry e with
+  | error y =>
+    simp only [hs] at hout
+    injection hout with hout
+    have : y = .assertion := by
+      unfold splitEntry at hs; split_ifs at hs; injection hs with hs; exact hs.symm
+    exact absurd (hout ▸ this) hx
+  | ok d =>
+    obtain ⟨hlo, hdr, hdi⟩ := splitEntry_ok e d hs
+    have hnc := splitEntry_local_not_corrupt e d hs hlh
+    simp only [hs] at hout ⊢
+    generalize ht : (TwoEntries.mk d (Entry.mk { e.l with changed := true, p := e.l.p.clearSync } (blankSide e.l.otype) true Ign.no 0)) = t at hout ⊢
+    have htd : t.defer = d := by rw [← ht]
+    cases hsc : (splitConflict o t).out with
+    | ret b => simp [hsc] at hout
+    | raised y =>
+      have hents := splitConflict_raised o t y hsc
+      simp only [hsc, hents] at hout ⊢
+      have := exceptBranch_restores e t y (.split :: (splitConflict o t).effs) hro (by rw [htd]; exact hnc)
+        (by rw [htd, hdr]) (by rw [htd, hdr])
+      exact this.2
+
+end CS.Engine.Conflict
+
+namespace CS.Engine.Conflict
+open CS.Hints (Ex OT Ign)
+open CS.Engine CS.Resolver
+
+/-- a content is PRESERVED by a visit: it is at the path on both sides, or parked under a '.conflicted' name on some side, or the
+    conflict is still open and the content is still at the path of a side -/
+def preserved {α : Type} (st : St α) (c : α) : Prop :=
+  (st.pair.loc.main = some c ∧ st.pair.rem.main = some c) ∨ c ∈ st.pair.loc.conf ∨ c ∈ st.pair.rem.conf ∨
+  (st.«open».isSome = true ∧ (st.pair.loc.main = some c ∨ st.pair.rem.main = some c))
+
+/-- the application's answer, after validation, is an explicit "do not keep the other version" -/
+def explicitDiscard {α : Type} (b : Behaviour α) : Prop := ∃ fh, (safeCall Side.rem OType.file OType.file b).1 = .pair fh false
+
+/-- CONFLICT NEVER LOSES A SIDE (manager.py 377-380 → 1614-1658 → 958-1027, content level = Model/Resolver.lean).  One visit of a
+    file/file hash conflict by `sync`: for EVERY behaviour of the application's resolver — a pick with keep, merged data with keep,
+    None, garbage, an exception, a CloudTemporaryError — except an explicit answer with keep = False, both the LOCAL and the
+    REMOTE content are preserved: at the path on both sides, under a '.conflicted' sibling, or (CloudTemporaryError / merged+keep:
+    the conflict stays open) still where they were. -/
+theorem conflict_never_loses_a_side {α : Type} [DecidableEq α] (b : Behaviour α) (cl cr : α) (h : ¬ explicitDiscard b) :
+    preserved (visit b cl cr) cl ∧ preserved (visit b cl cr) cr := by
+  unfold visit episode initSt
+  simp only
+  by_cases heq : cl = cr
+  · subst heq
+    simp [preserved]
+  · simp only [heq, if_false, fileLikes, sideStates, if_true]
+    cases hsc : (safeCall Side.rem OType.file OType.file b).1 with
+    | reraised => simp [preserved]
+    | pair fh keep =>
+      cases keep with
+      | false => exact absurd ⟨fh, hsc⟩ h
+      | true =>
+        cases fh with
+        | handle i =>
+          cases i <;>
+            simp [preserved, resolveStep, replaceLoser, settle, Pair.get, Pair.set, Side.other, Chosen.bytes]
+        | data d =>
+          simp [preserved, resolveStep, replaceLoser, Pair.get, Pair.set, Side.other, Chosen.bytes]
+
+/-- the same-hash shortcut (1644-1652): the deferring side's bytes hash to the replaced side's hash — the resolver is not called,
+    the replacement entry is discarded and both sides of the surviving entry are recorded as synced (hash and path) -/
+theorem same_hash_conflict_merges_without_resolver (t : TwoEntries) (rc : RcAns)
+    (hf : t.defer.r.otype = .file) :
+    let r := splitConflict ⟨.ok, false, true, rc⟩ t
+    r.out = .ret true ∧ CEff.resolve ∉ r.effs ∧ r.ents.replace.ign = .discarded ∧
+    r.ents.defer.l.h.same = true ∧ r.ents.defer.l.p.same = true ∧ r.ents.defer.r.h.same = true ∧ r.ents.defer.r.p.same = true := by
+  have hp0 : ∀ x : Entry, (if t.replace.l.p.cur = true then x.setPrio 0 else x).l = x.l ∧ (if t.replace.l.p.cur = true then x.setPrio 0 else x).r = x.r := by
+    intro x; split_ifs
+    · exact ⟨(setPrio_zero_sides x).1, (setPrio_zero_sides x).2.1⟩
+    · exact ⟨rfl, rfl⟩
+  simp only [splitConflict, hf, beq_self_eq_true, if_true, Bool.false_eq_true, if_false, mergeSame]
+  refine ⟨trivial, by simp, setIgn_ign _ _, ?_, ?_, ?_, ?_⟩
+  all_goals simp [hp0]
+
+/-- `sync` on a hash conflict: it reports progress (True) whatever `handle_hash_conflict` returns, or the exception leaves it -/
+theorem hash_conflict_sync_total (o : COracle) (e : Entry) (h : hashConflict e = true) :
+    ∃ r, syncClosed o e = some r ∧ (r.out = .ret true ∨ ∃ x, r.out = .raised x) ∧ CEff.split ∈ r.effs := by
+  unfold syncClosed
+  simp only [h, if_true]
+  refine ⟨_, rfl, ?_, ?_⟩
+  · cases hh : (hashConflictHandler o e).out with
+    | ret b => left; rfl
+    | raised x => right; exact ⟨x, by simp [hh]⟩
+  · have hex : ∀ t x fx, CEff.split ∈ fx → CEff.split ∈ (exceptBranch e t x fx).effs := by
+      intro t x fx hfx; unfold exceptBranch; simp only; split_ifs <;> exact hfx
+    have : CEff.split ∈ (hashConflictHandler o e).effs := by
+      unfold hashConflictHandler
+      cases splitFull e with
+      | error y => simp
+      | ok t =>
+        simp only
+        cases (splitConflict o t).out with
+        | ret b => simp
+        | raised y => exact hex _ _ _ (by simp)
+    cases hh : (hashConflictHandler o e).out <;> simpa [hh] using this
+
+end CS.Engine.Conflict
+
+/-! satisfiability: a hash conflict whose handling lets a CloudTemporaryError escape -/
+example : CS.Engine.hashConflict { l := { CS.Engine.wSynced with h := .ne }, r := { CS.Engine.wSynced with h := .ne }, lLeR := true, ign := .no, prio := 0 } = true ∧
+    (CS.Engine.Conflict.hashConflictHandler ⟨.temp, false, false, .ok⟩
+      { l := { CS.Engine.wSynced with h := .ne }, r := { CS.Engine.wSynced with h := .ne }, lLeR := true, ign := .no, prio := 0 }).out = .raised .temp := by
+  decide
